@@ -275,6 +275,8 @@ def inline_helper_call(ctx, f: FunctionInfo, call: ast.Call) -> Optional[ast.AST
     if len(targets) != 1 or how in ("by-name",):
         return None
     g = targets[0]
+    if not g.name.startswith("_") or g.name.startswith("__"):
+        return None         # public functions are anchors: rules want to see the call
     body = [s for s in g.node.body if not (isinstance(s, ast.Expr) and isinstance(s.value, ast.Constant))]
     if len(body) != 1 or not isinstance(body[0], ast.Return) or body[0].value is None:
         return None
